@@ -197,3 +197,15 @@ def c06_cycle_through_exception_swallowing_formula(events, violation):
     if "IFERROR(" in f or "ISERROR(" in f or "ISERR(" in f or "except" in f:
       return True
   return False
+
+
+def c05_cell_computed_before_a_record_appears_in_the_same_pass(events, violation):
+  """F-p: some formula looks up a summary table (whose rows come into being during
+  recalculation), and the incremental engine differs from a fresh one / another order."""
+  if violation.get("oracle") not in ("from-scratch", "order-state"):
+    return False
+  for _ev, a in _formula_writes(events):
+    f = a[3].get("formula") or ""
+    if "_summary" in f and ".lookup" in f:
+      return True
+  return False
